@@ -170,7 +170,18 @@ WasmCells == { c \in [fam : {"target"}, what : {"cast"}, a : WInts, b : WInts, w
              \cup [fam : {"target"}, what : {"size"}, a : {"ptr", "ptrarray", "ptrstruct", "usize", "usizearray", "mixed"},
                     b : {"ret", "const"}, wasm : BOOLEAN]
 
+(***************************************************************************)
+(* two by-catches of the ninth seeding round, found on the UNCHANGED tree:  *)
+(* a constant whose value divides by zero, and an opaque structure         *)
+(* (`struct Owner;`) used as if it had a body.  Whether such programs are  *)
+(* rejected is not documented (free): they have to END as the protocol     *)
+(* says -- a diagnostic or IR, never a crash.                              *)
+(***************************************************************************)
+ConstDivCells == [fam : {"constdiv"}, op : {"/", "%"}, ty : {"usize", "i32", "u8"}, use : {"value", "length", "unused", "operand", "member"}]
+OpaqueCells == [fam : {"opaque"}, use : {"literal", "variable", "sizeof", "parameter", "pointer", "member", "element", "return"}]
+
 Cells == BuiltinCells \cup DepthCells \cup SizeCells \cup SymCells \cup NameCells \cup ChainCells \cup RetCells \cup JoinCells \cup WasmCells
+           \cup ConstDivCells \cup OpaqueCells
 Expect(x) == CASE x.fam = "builtin" -> BuiltinExpect(x)
                [] x.fam = "depth" -> DepthExpect(x)
                [] x.fam = "size" -> SizeExpect(x)
@@ -179,6 +190,7 @@ Expect(x) == CASE x.fam = "builtin" -> BuiltinExpect(x)
                [] x.fam = "rettype" -> RetExpect(x)
                [] x.fam = "joinstr" -> JoinExpect(x)
                [] x.fam = "target" -> [t |-> "valid"]
+               [] x.fam \in {"constdiv", "opaque"} -> [t |-> "free"]
                [] OTHER -> SymExpect(x)
 
 VARIABLE x
